@@ -20,7 +20,7 @@ const N_EDGES: u64 = 30;
 fn check_edge(i: u64, rec: &mut Rec) -> CaseResult {
     rec.nontrivial();
     rec.hash_u64(i);
-    let name = |recs: Vec<NameRecM>, langs: Vec<StrM>, rec: &mut Rec| check_name_owned(&NameM { recs, langs, gap: 0 }, rec);
+    let name = |recs: Vec<NameRecM>, langs: Vec<StrM>, rec: &mut Rec| check_name_owned(&NameM { recs, langs, gap: 0, layout: 0 }, rec);
     match i {
         // ---- name (owned): string offsets and lengths around 64K
         0 => name(vec![nrec(1, 40000), nrec(2, 30000)], vec![], rec), // second offset 40000, data past 64K: representable
@@ -36,7 +36,7 @@ fn check_edge(i: u64, rec: &mut Rec) -> CaseResult {
         10 => name(vec![], vec![s(65536, 1)], rec),
         // ---- name (borrowed): stringOffset past 64K
         11 => {
-            let m = NameM { recs: (0..5461).map(|k| nrec(k as u16, 0)).collect(), langs: vec![], gap: 0 };
+            let m = NameM { recs: (0..5461).map(|k| nrec(k as u16, 0)).collect(), langs: vec![], gap: 0, layout: 0 };
             // build the records with my encoder; stringOffset does not fit, the table is read with a wrapped offset — only the writer matters here
             let raw = enc_name(&m);
             let t = ReadScope::new(&raw).read::<NameTable<'_>>().map_err(|e| fail("name:parse", format!("{:?}", e)))?;
@@ -114,7 +114,14 @@ fn check_edge(i: u64, rec: &mut Rec) -> CaseResult {
             let n = if i == 23 { 65535usize } else { 65536 };
             let instr = vec![0x4Bu8; n];
             let sm = GlyphM::Simple(SimpleM { bbox: [0; 4], contours: vec![1], instr: instr.clone(), pts: vec![(1, 2, true)], enc: 0 });
-            let cm = GlyphM::Composite(CompM { bbox: [0; 4], parts: vec![CompPartM { gid: 1, args: ArgM::I8(0, 0), scale: ScaleM::None, extra: 0 }], instr: Some(instr), reserved: 0 });
+            let cm = GlyphM::Composite(CompM {
+                bbox: [0; 4],
+                parts: vec![
+                    CompPartM { gid: 1, args: ArgM::I8(0, 0), scale: ScaleM::None, extra: 0, instr: true, reserved: 0 },
+                    CompPartM { gid: 2, args: ArgM::I8(0, 0), scale: ScaleM::None, extra: 0, instr: false, reserved: 0 },
+                ],
+                instr,
+            });
             rec.class(if n == 65535 { "edge:glyph-65535-instruction-bytes" } else { "edge:glyph-65536-instruction-bytes" });
             for m in [sm, cm] {
                 let r = wb::<Glyph<'_>, _>(glyph_value(&m));
@@ -159,7 +166,7 @@ fn check_edge(i: u64, rec: &mut Rec) -> CaseResult {
         // ---- post Pascal strings at 255 / 256
         28 => {
             for len in [255u32, 256] {
-                let m = PostM { version: 0x0002_0000, italic: 0, upos: 0, uthick: 0, mem: [0; 5], v2: Some((vec![258], vec![s(len, 0x41)])) };
+                let m = PostM { version: 0x0002_0000, italic: 0, upos: 0, uthick: 0, mem: [0; 5], v2: Some((vec![258], vec![s(len, 0x41)])), unused_names: vec![] };
                 check_post(&m, rec)?;
             }
             Ok(())
@@ -392,7 +399,15 @@ pub fn run(ctx: &mut Ctx) {
     ctx.section(
         "cmap-table",
         ctx.cases(18_000, 600_000),
-        proptest::collection::vec((prop_oneof![Just(0u16), Just(1), Just(3), bu16()], bu16(), cmap_sub_strategy()), 0..4),
+        proptest::collection::vec((prop_oneof![Just(0u16), Just(1), Just(3), bu16()], bu16(), cmap_sub_strategy(), proptest::bool::weighted(0.4)), 0..4).prop_map(|v| {
+            // some records repeat the sub-table of their predecessor (fonts share one sub-table between (0,3) and (3,1))
+            let mut out: Vec<(u16, u16, CmapSubM)> = Vec::new();
+            for (p, e, s, dup) in v {
+                let s = if dup && !out.is_empty() { out[out.len() - 1].2.clone() } else { s };
+                out.push((p, e, s));
+            }
+            out
+        }),
         |m, rec| check_cmap_table(m, rec),
     );
     ctx.enumerate("edges-truetype", N_EDGES, true, |i, rec| check_edge(i, rec));
